@@ -15,6 +15,8 @@ impl<'buf, B> BufRef<'buf, B> {
     #[cfg(feature = "alloc")]
     pub(crate) fn new(buf: B) -> Self {
         let x = Box::new(buf);
+        #[cfg(feature = "verif-hooks")]
+        crate::verif::buf_event(crate::verif::BOX, &*x as *const B as usize);
 
         Self {
             inner: NonNull::new(Box::into_raw(x)).unwrap(),
@@ -26,6 +28,8 @@ impl<'buf, B> BufRef<'buf, B> {
     #[cfg(feature = "alloc")]
     pub(crate) fn drop(&mut self) {
         if self.needs_drop {
+            #[cfg(feature = "verif-hooks")]
+            crate::verif::buf_event(crate::verif::FREE, self.inner.as_ptr() as usize);
             unsafe { let _ = Box::from_raw(self.inner.as_ptr()); }
         }
     }
